@@ -9,7 +9,7 @@ from pathlib import Path
 
 from .. import gen, paths
 from ..harness import CheckBase
-from ..vclock import Baton, Deadlock, SimpleClock, VLock, worst_window
+from ..vclock import Baton, Deadlock, SimpleClock, VLock, Watchdog, worst_window
 
 LIMITS = [4, 7, 1000, 64_000, 10**6, 10**9]
 LATENCY = ['zero', 'half', 'equal', 'double', 'random']
@@ -191,7 +191,7 @@ class Check(CheckBase):
             return fn
         per_stream = max(total_target // N, 4)
         unit = tiny if style == 'tiny' else max(1, (derived if style == 'derived' else dmax_allowed // 3 or 1))
-        cap = 6000 if style == 'tiny' else 1500
+        cap = max(400, 6000 // N) if style == 'tiny' else 1500
         if per_stream // unit > cap:
             per_stream = cap * unit
         payloads = [random.Random(seed + s).randbytes(min(per_stream, 2_000_000)) for s in range(N)]
@@ -250,6 +250,8 @@ class Check(CheckBase):
             except Deadlock as e:
                 violations.append({'what': f'rate-limited streams deadlock under the virtual scheduler: {e}', 'mechanism': None, 'witness': {}})
                 break
+            except Watchdog as e:
+                return {'verdict': 'inconclusive', 'note': str(e), 'classes': [], 'counters': counters, '_recycle': True}
             counters['programs'] += 1
             counters['events'] += len(events)
             counters['debt_invariant_evaluations'] += info['debt_checks']
@@ -272,7 +274,11 @@ class Check(CheckBase):
                 mech = None
                 if N > 1 and case['latency'] != 'zero':
                     # counterfactual: the same program with zero underlying latency
-                    ev0, info0 = self._run_program(case, random.Random(seed), 'zero', seed)
+                    try:
+                        ev0, info0 = self._run_program(case, random.Random(seed), 'zero', seed)
+                    except (Deadlock, Watchdog) as e:
+                        return {'verdict': 'inconclusive', 'note': f'counterfactual run did not finish: {e}', 'classes': [],
+                                'counters': counters, '_recycle': True}
                     allow0 = info0['pause_limit'] * L + N * info0['dmax'] + case['overshoot'] * L + 1e-6 * L + 1
                     if worst_window(ev0, L)[0] <= allow0:
                         mech = 'multi-stream-latency-credit'
